@@ -422,6 +422,14 @@ def main(argv):
         except AssertionError as e:
             failures.append(("gauss-validate", "GaussianPulse(loc=%r, scale=%r, perform_checks=True) is rejected by the validation: %s" % (loc, scale, e),
                              {"pulse": ["gauss", loc, scale], "perform_checks": True}))
+    # fixed probes at the known limit of the validation's default quadrature (narrow peaks; known_findings.json): own keys
+    for loc, scale in [(0.3, 0.001), (0.5, 0.001)]:
+        ck.count("known_limit_probes", 1, key=(loc, scale))
+        try:
+            P.GaussianPulse(loc=loc, scale=scale, perform_checks=True)
+        except AssertionError as e:
+            ck.report("gauss-validate:%r:%r" % (loc, scale), "GaussianPulse(loc=%r, scale=%r, perform_checks=True) is rejected by the validation (%s) although the pulse is a valid "
+                      "smooth pair (weight on [0,1] = 1, waveform >= 0, parametrisation = running integral)" % (loc, scale, e), {"pulse": ["gauss", loc, scale], "perform_checks": True})
     # Gaussians whose weight on [0,1] vanishes in floating point must be refused (else the waveform is 0/0)
     for loc, scale in [(50.0, 0.1), (-30.0, 0.5), (40.0, 1.0), (3.0, 0.02), (-2.0, 0.02), (12.0, 0.25)]:
         ck.count("gaussian: zero weight refused", 1)
